@@ -26,7 +26,8 @@ COMPONENTS = {
 }
 EXPECTED_PROBES = ('abandoned_handshake', 'unrouted', 'no_responder', 'mw_raised', 'script_raised',
                    'op_before_accept', 'op_after_close', 'denied', 'send_failed', 'custom_handler_called',
-                   'invalid_close_code', 'wrong_payload_type', 'send_refused')
+                   'invalid_close_code', 'wrong_payload_type', 'send_refused', 'second_task_receiving',
+                   'close_refused_then_owed')
 ASSUMPTIONS = (
     'ready callbacks run FIFO as asyncio guarantees; only environment timing varies',
     'when several error conditions hold at once any of their documented errors is accepted',
@@ -205,12 +206,19 @@ def check_session(ctx, h, script, app_cfg, cfg, client):
 
     # ---- (state, op) -> error model ------------------------------------------
     model_broken = False
+    # second-task mode: a background task sits in receive_text() while the responder goes on. The
+    # sequential (state, op) model does not order the two tasks, so only the protocol monitors, the
+    # hang check, payload integrity and the closing obligation stay in force for such a run.
+    bg_mode = any(op[0] == 'recv_bg' for op in script)
+    rejected_explicit = False
+    if bg_mode:
+        ctx.probe('second_task_receiving')
     st = 'H'
     code = None           # close code the application should see once closed
     arrived = [e for e in conn.arrived if e['type'] != 'websocket.connect']
     e = 0
     client_code = conn.disc_code
-    for o in h.obs:
+    for o in ([] if bg_mode else h.obs):
         op = o.op
         kind = op[0]
         got = 'ok' if o.kind == 'ok' else o.exc
@@ -369,6 +377,7 @@ def check_session(ctx, h, script, app_cfg, cfg, client):
             # do afterwards is server-specific; only the monitors remain in force
             ctx.probe('explicit_close_rejected')
             model_broken = True
+            rejected_explicit = True
             break
         if fail:
             # R: once a send has failed on a lost connection only the protocol
@@ -420,7 +429,19 @@ def check_session(ctx, h, script, app_cfg, cfg, client):
     if client['abandoned']:
         ctx.probe('abandoned_handshake')
         return
-    if not h.app_returned or model_broken:
+    weak = bg_mode or rejected_explicit
+    if not h.app_returned or (model_broken and not weak):
+        return
+    if weak:
+        # Whatever the two tasks (or a refused explicit close) did to each other: the application
+        # has returned, no send ever failed and the client is still connected, so the server must
+        # have been given a close event by somebody - the responder, an error handler with
+        # error_close_code / the 3011 fallback, or the framework's final close().
+        if any(o.exc == 'Exception' and o.op[0] == 'close' for o in h.obs):
+            ctx.probe('close_refused_then_owed')
+        if not conn.send_failed and not conn.lost and mon.closes < 1:
+            ctx.violate('ws.final_close', 'the application returned, the client is still connected '
+                        'and the server never saw a close event', why='still_connected')
         return
     if h.app_exc is not None and not conn.send_failed:
         ctx.violate('ws.escaped', 'exception escaped the app callable: %r' % (h.app_exc,))
@@ -515,6 +536,15 @@ def run(ctx):
         cfg['refuse_send_at'] = [ch.draw(5, 'refuse_at')]
     if ch.draw(5, 'server_rejects_1011') == 4:
         cfg['reject_close_codes'] = [1011]     # Autobahn/Daphne refuse the reserved-for-endpoints code
+    if cfg['max_queue'] > 0 and ch.draw(6, 'second_task') == 5:
+        # a second application task blocks in receive_text() right after the accept while the
+        # responder carries on (it issues no receive of its own: concurrent receives are not allowed)
+        at = next((i for i, op in enumerate(script) if op[0] == 'accept'), None)
+        if at is not None:
+            rest = [('pause', 1) if op[0] in ('recv', 'recv_cancel') else op for op in script[at + 1:]]
+            script = script[:at + 1] + [('recv_bg', ch.draw(3, 'k'))] + rest
+            if ch.draw(2, 'server_rejects_1011b'):
+                cfg['reject_close_codes'] = [1011]
     cfg['max_steps'] = 3000
     ctx.plan = {'cfg': dict(cfg), 'app': {k: (list(v) if isinstance(v, tuple) else v)
                                           for k, v in app_cfg.items()},
